@@ -248,7 +248,14 @@ func (b *c14b) noise(file, fn string, indent int) {
 	}
 	if b.r.Chance(1, 3) {
 		// constructs that span lines or are skipped by the scanner: later line numbers depend on them
-		switch b.r.Intn(4) {
+		switch b.r.Intn(7) {
+		case 4:
+			b.emit(file, fn, b.v()+" := 1 /* trailing note */", indent)
+		case 5:
+			b.emit(file, fn, b.v()+" := 3 /* two", indent)
+			b.emit(file, fn, "   lines */", indent)
+		case 6:
+			b.emit(file, fn, b.v()+" := [1, 2] /* a */ /* b */   ", indent)
 		case 0:
 			b.emit(file, fn, "// comment with a \"string\" and a brace {", indent)
 		case 1:
